@@ -341,7 +341,11 @@ func postingFieldDesc(cg cgView, v ssa.Value, depth int) string {
 		if x.Op == token.MUL {
 			var parts []string
 			a := x.X
-			for {
+			for hops := 0; hops < 8; hops++ {
+				if ld, ok := a.(*ssa.UnOp); ok && ld.Op == token.MUL {
+					a = ld.X // a pointer-typed part of the posting (Amount, Cost, ...): continue below it
+					continue
+				}
 				fa, ok := a.(*ssa.FieldAddr)
 				if !ok {
 					break
